@@ -131,6 +131,28 @@ def container_correspondence(ctx, path, desc, what):
         real = f"{h.data_blocks} | {' '.join(str(o) for o in offs)} | {os.path.getsize(path)}"
         if ans != real:
             ctx.corr_fail('Model.Container', req, ans[:200], real[:200], dict(desc, what=what))
+        # K: Model/Header: the reader's parsed fields == Header.parse of the bytes; Header.make of those fields == the bytes
+        raw = open(path, 'rb').read(76)
+        with SgzReader(path) as r:
+            if bytes(r.headerbytes[84:100]) == bytes(16) and r.file_version > __import__('seismic_zfp').version.SeismicZfpVersion('0.2.1'):
+                import struct as _st
+                ival = int(_st.unpack('<i', raw[28:32])[0])
+                rate_q = int(round(4 * r.rate))
+                fields = [r.n_header_blocks, r.n_samples, r.n_xlines, r.n_ilines, int(r.zslices[0]),
+                          int(r.xlines[0]) if r.n_xlines else 0, int(r.ilines[0]) if r.n_ilines else 0, ival,
+                          int(r.xlines[1] - r.xlines[0]) if r.n_xlines > 1 else int(_st.unpack('<i', raw[32:36])[0]),
+                          int(r.ilines[1] - r.ilines[0]) if r.n_ilines > 1 else int(_st.unpack('<i', raw[36:40])[0]),
+                          rate_q, r.blockshape[0], r.blockshape[1], r.blockshape[2], r.compressed_data_diskblocks,
+                          r.header_entry_length_bytes, r.n_header_arrays, r.tracecount, r.file_version.encoding]
+                fl = ' '.join(str(int(v)) for v in fields)
+                ctx.stats['corr_requests'] += 2
+                pa = m.ask('header parse ' + ' '.join(str(b) for b in raw))
+                if pa != fl:
+                    ctx.corr_fail('Model.Header/parse', 'header parse <76 bytes>', pa, fl, dict(desc, what=what))
+                mk = m.ask('header make ' + fl)
+                if mk != ' '.join(str(b) for b in raw):
+                    ctx.corr_fail('Model.Header/make', 'header make ' + fl, mk[:200], ' '.join(str(b) for b in raw)[:200],
+                                  dict(desc, what=what))
     except Exception as e:  # noqa
         ctx.corr_fail('Model.Container', str(path), 'readable file', f'{type(e).__name__}: {str(e)[:100]}', dict(desc, what=what))
 
